@@ -116,11 +116,16 @@ def run_case(c, tmp):
     if c.get('variants', True):
         # 2. extraction without return_counts, other path
         o2 = os.path.join(d, 'o2.p1log')
-        r = attempt(lambda: canon_ret(extract_fusion_engine_log(inp, o2)))
+        r = attempt(lambda: canon_ret(extract_fusion_engine_log(inp, o2, warn_on_gaps=False)))    # (a flag that must not matter)
         res['x2'] = {'ret': r, 'out': rd(o2), 'idx': rd(o2[:-6] + '.p1i')}
-        # 2b. save_index=False writes no index
+        # 2b. save_index=False writes no index; relative paths with the case directory as current directory
         o2b = os.path.join(d, 'o2b.p1log')
-        r = attempt(lambda: canon_ret(extract_fusion_engine_log(inp, o2b, save_index=False)))
+        cwd = os.getcwd()
+        try:
+            os.chdir(d)
+            r = attempt(lambda: canon_ret(extract_fusion_engine_log('in.bin', 'o2b.p1log', save_index=False)))
+        finally:
+            os.chdir(cwd)
         res['x2b'] = {'ret': r, 'out': rd(o2b), 'idx': rd(o2b[:-6] + '.p1i')}
     if res['x1']['out'] is not None:
         # 3. SPEC for the index: index a copy of the output afresh and let the library save that index
